@@ -173,7 +173,11 @@ def gen(rng, depth, cropped=False, top=True):
             t["w"] = max(1, m + rng.choice([0, 0, 1, 2, 5, 20, 60]) - (rng.random() < 0.1) * rng.randint(1, 3))
         return t
     if kind in ("styled", "wrap2"):
-        return dict(k="styled" if kind == "styled" else rng.choice(["opaque", "cast"]), c=gen(rng, d, cropped, False))
+        c = gen(rng, d, cropped, False)
+        k = "styled" if kind == "styled" else rng.choice(["opaque", "cast"])
+        if k == "cast" and c["k"] == "cast":
+            k = "opaque"                # __rich__ returning another __rich__ object is not supported by Console.render
+        return dict(k=k, c=c)
     if kind == "group":
         return dict(k="group", ch=[gen(rng, d, cropped, False) for _ in range(rng.choice([1, 2, 2, 3]))],
                     fit=rng.random() < 0.8)
@@ -383,6 +387,8 @@ def complete(t, salt=0):
     elif k in ("align", "constrain", "styled", "opaque", "cast"):
         if k == "align":
             t.setdefault("al", "center"); t.setdefault("pad", True)
+        if k == "cast" and t["c"]["k"] == "cast":
+            t["k"] = "opaque"           # a cast of a cast is not a valid renderable
         complete(t["c"], salt + 1)
     elif k == "group":
         t.setdefault("fit", True)
